@@ -18,7 +18,7 @@ import (
 
 // op is one command of a scenario (replayable: message sets are kept as the text that was sent).
 type op struct {
-	Kind    string   `json:"kind"` // SELECT APPEND STORE EXPUNGE UIDEXPUNGE CLOSE COPY MOVE
+	Kind    string   `json:"kind"` // SELECT EXAMINE APPEND STORE EXPUNGE UIDEXPUNGE CLOSE COPY MOVE NOOP
 	S       int      `json:"s"`    // session index (0-based)
 	UID     bool     `json:"uid,omitempty"`
 	Set     string   `json:"set,omitempty"`
@@ -81,6 +81,8 @@ func (o op) String() string {
 		return p + u + "STORE " + o.Set + " " + actWord(o.Act) + sil + " (" + strings.Join(o.Flags, " ") + ")"
 	case "EXPUNGE":
 		return p + "EXPUNGE"
+	case "NOOP":
+		return p + "NOOP"
 	case "UIDEXPUNGE":
 		return p + "UID EXPUNGE " + o.Set
 	case "CLOSE":
@@ -105,6 +107,7 @@ type vrow struct {
 	Flags    []string // lower-case
 	Ent      int
 	Stale    bool // the reference mailbox no longer has this entry
+	Ghost    bool // the reference mailbox never had an entry with this UID while the session had it selected (Ent = 0)
 }
 
 func (r vrow) deleted() bool { return hasFlagCI(r.Flags, fDeleted) }
@@ -306,7 +309,9 @@ func (w *world) refresh(si int) error {
 			row.Ent = ent
 			row.Stale = true
 		} else {
-			return fmt.Errorf("view of S%d (%s) shows UID %d that the reference mailbox never had while S%d looked", si+1, s.box, row.UID, si+1)
+			// a message that was never in the selected mailbox: the reference resolves message sets over the messages of the
+			// mailbox, so the row denotes nothing; exec reports it unless the command already shows a difference of content
+			row.Ghost = true
 		}
 		s.view = append(s.view, *row)
 	}
@@ -435,7 +440,9 @@ func resolveRows(view []vrow, set string, uid bool) ([]vrow, bool) {
 func seesEnt(rows []vrow) func(e entry) bool {
 	m := map[int]bool{}
 	for _, r := range rows {
-		m[r.Ent] = true
+		if !r.Ghost {
+			m[r.Ent] = true
+		}
 	}
 	return func(e entry) bool { return m[e.Ent] }
 }
@@ -444,7 +451,7 @@ func entsOf(rows []vrow) []int {
 	var out []int
 	seen := map[int]bool{}
 	for _, r := range rows {
-		if !seen[r.Ent] {
+		if !r.Ghost && !seen[r.Ent] {
 			seen[r.Ent] = true
 			out = append(out, r.Ent)
 		}
@@ -578,10 +585,19 @@ func (w *world) exec(o op) error {
 		w.ops = w.ops[:idx] // session without a selected mailbox (only in shrunk replays): skip
 		return nil
 	}
-	if needSel {
+	if needSel && o.Kind != "NOOP" {
 		if err := w.refresh(o.S); err != nil {
 			return err
 		}
+	}
+	if o.Kind == "NOOP" || (!needSel && o.Kind != "APPEND" && s.box != "") {
+		// NOOP: the session is told everything that is pending (expunges included), without the FETCH of a view refresh before it.
+		// SELECT / EXAMINE while a mailbox is selected: no refresh either, so that the news of the mailbox that is left are still
+		// pending in the session when it switches; waiting for the queues makes that the case in every run.
+		if err := w.waitQuiet(); err != nil {
+			return err
+		}
+		s.view = nil
 	}
 	selBox, viewAt := s.box, s.view // the mailbox and view the command works on (CLOSE re-selects)
 	pre := w.m
@@ -604,6 +620,9 @@ func (w *world) exec(o op) error {
 	}
 	switch o.Kind {
 	case "SELECT", "EXAMINE":
+		if w.record && s.box != "" && s.box != o.Box {
+			w.sit(o, "switch-without-flush")
+		}
 		r, err = s.c.Cmd(o.Kind + " " + o.Box)
 		if err == nil && r.Status == "OK" {
 			s.box = o.Box
@@ -611,6 +630,16 @@ func (w *world) exec(o op) error {
 			s.seen = map[int]int{}
 		}
 		coq = fmt.Sprintf("KClearRecent %d", boxNum(o.Box))
+	case "NOOP":
+		r, err = s.c.Cmd("NOOP")
+		if w.record {
+			w.sit(o, "flush")
+			for j, t := range w.sess {
+				if j != o.S && t.box != "" && t.box != s.box {
+					w.sit(o, "flush-before-session-of-other-mailbox")
+				}
+			}
+		}
 	case "APPEND":
 		n := o.Count
 		if n < 1 {
@@ -806,6 +835,15 @@ func (w *world) exec(o op) error {
 			dd = "answered " + r.Status + " but " + dd
 		}
 		w.fail = &failure{Idx: idx, Kind: o.Kind + "/" + k, Detail: dd}
+	}
+	if w.fail == nil {
+		for _, x := range viewAt {
+			if x.Ghost {
+				w.fail = &failure{Idx: idx, Kind: o.Kind + "/foreign-message-in-view", Detail: fmt.Sprintf("S%d has %s selected and is shown a message with UID %d at sequence number %d, which %s never held since S%d selected it: message sets of S%d denote other messages than in the reference",
+					o.S+1, selBox, x.UID, x.Seq, selBox, o.S+1, o.S+1)}
+				break
+			}
+		}
 	}
 	if w.fail != nil {
 		w.fail.Text = r.Status + " " + r.Text
